@@ -502,7 +502,12 @@ static value run_step(const value& st, std::map<int, std::unique_ptr<VM>>& vms)
     }
     out.set("logs", vm.logger.drain());
     out.set("st", state_of(vm));
-    if (vm.mon && st["mon"].boolean(false)) out.set("mon", vm.mon->report(true));
+    if (vm.mon && st["mon"].boolean(false))
+    {
+        // a script dropped by the scheduler after the very last slice of the run would otherwise never be recorded as dropped
+        if (vm.mon->mon_slices && vm.rt) vm.mon->track_contexts(*vm.rt);
+        out.set("mon", vm.mon->report(true));
+    }
     return out;
 }
 
